@@ -960,8 +960,9 @@ func (c *Client) PrecreateShardGroups(from, to time.Time) error {
 				// This last check is important, so the system doesn't create shards groups wholly
 				// in the past.
 
-				// Create successive shard group.
-				nextShardGroupTime := g.EndTime.Add(1 * time.Nanosecond)
+				// Create successive shard group. EndTime is exclusive, i.e. it is the
+				// first instant of the successor's range.
+				nextShardGroupTime := g.EndTime
 				// if it already exists, continue
 				if sg, _ := c.data().ShardGroupByTimestamp(di.Name, rp.Name, nextShardGroupTime); sg != nil {
 					c.logger.Info("Shard group already exists",
